@@ -147,9 +147,18 @@ def campaign(res, count=None):
     rng = common.Splitmix(res.seed * 611953 + 7)
     ops = gen_ops(rng, count)
     env = dict(os.environ, MYTH_NUM_WORKERS="1")
-    rc, out, errtxt = common.sh([exe], inp="\n".join(ops) + "\n", timeout=600, env=env)
+    rc, out, errtxt = common.sh([exe], inp="\n".join(ops) + "\n", timeout=120, env=env)
     if rc != 0:
-        raise RuntimeError("jc_arith harness rc=%s: %s" % (rc, " ".join(errtxt.split()[:40])))
+        # the real code hangs or crashes on one of the operations: find it (the operations are independent)
+        answered = len(out.splitlines())
+        for op in ops[max(0, answered - 1):answered + 3] + ops:
+            rc1, out1, err1 = common.sh([exe], inp=op + "\n", timeout=15, env=env)
+            if rc1 != 0:
+                p = common.write_replay(res.pid, "jc_arith_failing.ops", op + "\n")
+                res.violations.append((p, True, "join-counter arithmetic: `%s` (jcbits n | jcdec n word | jcwait n word) on the real myth_join_counter code: %s" % (
+                    op, "does not return (15 s)" if rc1 == -9 else "crashes: rc=%s %s" % (rc1, " ".join(err1.split()[:30])))))
+                return False
+        raise RuntimeError("jc_arith harness rc=%s on the whole stream but every single operation passes: %s" % (rc, " ".join(errtxt.split()[:40])))
     outs = out.splitlines()
     mouts = common.driver("jc", ops)
     if len(outs) != len(ops) or len(mouts) != len(ops):
